@@ -229,7 +229,10 @@ def splice_body(body, spec, where):
                 edits.append((toks[c['bend']].end, toks[c['bend']].end, ' }'))
     # hints
     for (label, tags, pos, prefix, text, lineno) in spec.hints:
-        block = '\n' + mark('proof {\n' + text + '\n}', label) + '\n'
+        if text.lstrip().startswith('@raw'):
+            block = '\n' + mark(text.lstrip()[4:].lstrip('\n'), label) + '\n'
+        else:
+            block = '\n' + mark('proof {\n' + text + '\n}', label) + '\n'
         if pos == 'start':
             edits.append((toks[0].end, toks[0].end, block))
             continue
@@ -311,6 +314,14 @@ def build(unit_path, repo=None, extra_tail=''):
             open_impl = None
 
     for it in u.items:
+        if isinstance(it, tuple) and it[0] == 'rawin':
+            hdr, _ = R.apply_rules([r for r in u.rules if r in ('R1', 'R3')], it[3], ctx)
+            if hdr != open_impl:
+                close_impl()
+                item_chunks.append('%s {\n' % hdr)
+                open_impl = hdr
+            item_chunks.append('// ---- raw in block (units/%s:%d)\n%s\n' % (os.path.basename(unit_path), it[2], it[1]))
+            continue
         if isinstance(it, tuple):
             close_impl()
             item_chunks.append('// ======== raw (units/%s:%d) ========\n%s\n' % (os.path.basename(unit_path), it[2], it[1]))
@@ -322,6 +333,9 @@ def build(unit_path, repo=None, extra_tail=''):
         sf = sources[it.source]
         item = sf.find(it.path)
         rule_names = it.rules if it.rules is not None else u.rules
+        ctx.rule_args = dict(u.rule_args)
+        for k_, v_ in it.rule_args.items():
+            ctx.rule_args[k_] = list(u.rule_args.get(k_, [])) + v_
         segs = [s.strip() for s in re.split(r'\s+::\s+', it.path.strip())]
         where = '%s :: %s' % (it.source, it.path)
         if item.kind != 'fn':
@@ -365,6 +379,18 @@ def build(unit_path, repo=None, extra_tail=''):
         ens = [c for c in it.clauses if c.kind == 'ensures']
         dec = [c for c in it.clauses if c.kind == 'decreases']
         contract = clause_block('requires', req, '    ') + clause_block('ensures', ens, '    ') + clause_block('decreases', dec, '    ')
+        included = getattr(it, 'included_from', None)
+        if included:
+            # contract text comes from the home unit; it is assumed here and proved there
+            for c in it.clauses:
+                c.label = None
+            for n, cl in it.loops.items():
+                for c in cl:
+                    c.label = None
+            for n, d in it.closures.items():
+                for c in d['clauses']:
+                    c.label = None
+            it.hints = [] if it.external_body else it.hints
         for c in it.clauses:
             if c.label:
                 if c.label in g.clauses:
@@ -382,7 +408,7 @@ def build(unit_path, repo=None, extra_tail=''):
                     raise Undecided('duplicate clause label %s' % c.label)
                 g.clauses[c.label] = {'tags': c.tags, 'kind': 'closure-' + c.kind, 'expr': c.expr, 'fn': fname, 'unit': u.name}
         for (label, tags, pos, prefix, text, lineno) in it.hints:
-            if label not in g.clauses:
+            if label not in g.clauses and not included:
                 g.clauses[label] = {'tags': tags, 'kind': 'hint', 'expr': '(proof hint)', 'fn': fname, 'unit': u.name}
         pre = ''.join('    ' + a + '\n' for a in it.attrs)
         if it.external_body:
@@ -395,7 +421,7 @@ def build(unit_path, repo=None, extra_tail=''):
         item_chunks.append('// ---- %s\n%s' % (where, chunk))
         g.functions.append({'name': fname, 'kind': 'fn', 'source': it.source, 'path': it.path, 'line': sf.line_of(item), 'sha': sha(item.text),
                             'rules': fired, 'verbatim': not fired and not it.as_header, 'props': it.props,
-                            'external_body': it.external_body, 'has_body': body is not None})
+                            'external_body': it.external_body, 'has_body': body is not None, 'included_from': included})
     close_impl()
     parts += item_chunks
     if extra_tail:
